@@ -166,6 +166,14 @@ def cases():
     ws("header-part-is-alias", messages=GOOD_MSG.replace('<wsdl:part name="h" element="t:Hdr"/>', '<wsdl:part name="h" element="t:Res"/>'))
     ws("header-in-output-without-output-message", binding=GOOD_BIND.replace('<wsdl:output><soap:body use="literal"/>', '<wsdl:output><soap:header message="t:Out" part="q" use="literal"/><soap:body use="literal"/>'))
     ws("output-only-in-binding", port=GOOD_PORT.replace('<wsdl:output message="t:Out"/>', ""))
+    ws("output-only-in-binding-with-parts", port=GOOD_PORT.replace('<wsdl:output message="t:Out"/>', ""),
+       binding=GOOD_BIND.replace('<wsdl:output><soap:body use="literal"/>', '<wsdl:output><soap:body use="literal" parts="p"/>'))
+    ws("output-message-dangling-with-parts", port=GOOD_PORT.replace("t:Out", "t:Nope"),
+       binding=GOOD_BIND.replace('<wsdl:output><soap:body use="literal"/>', '<wsdl:output><soap:body use="literal" parts="p"/>'))
+    ws("output-header-without-port-output", port=GOOD_PORT.replace('<wsdl:output message="t:Out"/>', ""),
+       binding=GOOD_BIND.replace('<wsdl:output><soap:body use="literal"/>', '<wsdl:output><soap:header message="t:Out" part="p" use="literal"/><soap:body use="literal"/>'))
+    ws("input-parts-and-output-parts", binding=GOOD_BIND.replace('<wsdl:output><soap:body use="literal"/>', '<wsdl:output><soap:body use="literal" parts="p"/>'))
+    ws("output-parts-dangling", binding=GOOD_BIND.replace('<wsdl:output><soap:body use="literal"/>', '<wsdl:output><soap:body use="literal" parts="zzz"/>'))
     ws("body-is-typed-alias-element", messages=GOOD_MSG.replace('<wsdl:part name="p" element="t:Req"/>', '<wsdl:part name="p" element="t:Res"/>'))
     ws("body-element-unsupported-kind", types=GOOD_TYPES.replace('<xs:element name="Res" type="xs:string"/>', '<xs:element name="Res"/>'))
     ws("soapaction-not-a-url", binding=GOOD_BIND.replace("http://zv.test/a", "not a url"))
